@@ -174,13 +174,23 @@ func initReFn() {
 func reenter(r *Recorder) {
 	// every other time the user function re-enters the very function that is calling it (a
 	// recursive walk over a tree does that), one level deep
-	if r.Self != nil && r.depth == 0 && r.Nested%2 == 1 {
+	// (the Recorder's counters are guarded by recMu: a library that calls user functions from
+	// goroutines of its own calls them concurrently)
+	recMu.Lock()
+	self := r.Self != nil && r.depth == 0 && r.Nested%2 == 1
+	selfFn := r.Self
+	if self {
 		r.depth++
+	}
+	recMu.Unlock()
+	if self {
 		func() {
 			defer func() { recover() }()
-			r.Self(reDoc)
+			selfFn(reDoc)
 		}()
+		recMu.Lock()
 		r.depth--
+		recMu.Unlock()
 	}
 	var res []interface{}
 	var err error
@@ -191,14 +201,16 @@ func reenter(r *Recorder) {
 	} else {
 		res, err = jsonpath.Retrieve(rePath, reDoc)
 	}
-	r.Nested++
 	got := canon(res) + "|" + canonErr(err)
+	recMu.Lock()
+	r.Nested++
 	if got != reExpect && r.Bad == "" {
 		r.Bad = "nested retrieve returned " + got
 	}
+	recMu.Unlock()
 }
 
-func record(f, variant int, arg interface{}) (*Recorder, bool) {
+func record(f, variant int, arg interface{}) (*Recorder, bool, int) {
 	simrt.CallbackSeam()
 	recMu.Lock()
 	defer recMu.Unlock()
@@ -214,19 +226,19 @@ func record(f, variant int, arg interface{}) (*Recorder, bool) {
 		r.Panicked++
 		panic(plannedPanic{funcNames[f]})
 	}
-	return r, fail
+	return r, fail, i
 }
 
 // Functions of different Config variants carry the same names but behave differently, so
 // that a function leaking from one Config into a call made with another is visible.
 func mkFilter(f, variant int) func(interface{}) (interface{}, error) {
 	return func(v interface{}) (interface{}, error) {
-		r, fail := record(f, variant, v)
+		r, fail, idx := record(f, variant, v)
 		if f == fYF {
 			reenter(r)
 		}
 		if fail {
-			return nil, plannedError(r, f, r.Count[f]-1)
+			return nil, plannedError(r, f, idx)
 		}
 		if f == fTag {
 			return tagOf(v, variant), nil
@@ -259,12 +271,12 @@ func countOf(n, variant int) interface{} { return float64(n + 1000*variant) }
 
 func mkAggregate(f, variant int) func([]interface{}) (interface{}, error) {
 	return func(vs []interface{}) (interface{}, error) {
-		r, fail := record(f, variant, listArg(vs))
+		r, fail, idx := record(f, variant, listArg(vs))
 		if f == fYA {
 			reenter(r)
 		}
 		if fail {
-			return nil, plannedError(r, f, r.Count[f]-1)
+			return nil, plannedError(r, f, idx)
 		}
 		switch f {
 		case fCnt, fYA:
